@@ -80,7 +80,7 @@ PROPS = {
         level_text="Three-directional generated check: an independent byte-level FITS writer feeds the library reader (every getter compared with the spec), the library writer's bytes are parsed by an independent reader against the documented layout, and the library round trip must compare equal, keep every getter and evaluate bit-identically; memory and disk back ends, legacy variants; plus the ten shipped files against committed digests. Self round trips alone cannot see symmetric writer/reader mistakes; the independent codec can.",
         level_note="Trusts harness/common/fits_indep.hpp (FITS subset codec written from the standard, shares no code with cfitsio) and the committed digests in golden/shipped.digest computed on the pinned tree.",
         technique="property-based round-trip and differential testing (rapidcheck) against an independent FITS codec",
-        units=[U("c06_fits", "c06_fits.cpp", quick=16000, thorough=1000000, names=["roundtrip", "shipped"])],
+        units=[U("c06_fits", "c06_fits.cpp", quick=16000, thorough=600000, names=["roundtrip", "shipped"])],
         rule="tables of 1..9 dims with pairwise different axis lengths, orders 0..5, coefficient palette plus special values (denormal, FLT_MAX, -0, +-inf, "
              "quiet/signalling NaN payloads), non-default extents, non-zero periods, 0..30 auxiliary keys from the accepted alphabet (short and HIERARCH), "
              "legacy variants (single ORDER card, no EXTENTS, no PERIODn), memory or disk on either side. Non-trivial: ndim>=2 with unequal axes, special "
@@ -245,7 +245,7 @@ PROPS = {
         level_text="Generated table files (independent writer; 1..6 dims, mixed orders 0..5, up to 1e5 coefficients, 0..50 auxiliary keys of all accepted lengths incl. maximal key+value) are loaded into splinetable<CheckedAlloc> from their path and optionally convolved exactly as declared to estimateMemory (2..8 kernel knots, any dimension). The allocator's ledger gives the peak number of bytes simultaneously requested, which must not exceed the estimate; the ledger must also balance (every block returned exactly once).",
         level_note="Only requests made through the table's allocator are counted, as the property states (convolve's temporaries use operator new). A fixed-size arena's own bookkeeping overhead is outside the estimate's scope.",
         technique="property-based testing (rapidcheck) with a byte-counting allocator as measurement oracle",
-        units=[U("c19_estimate", "c19_estimate.cpp", quick=2500, thorough=90000, names=["estimate_bounds_peak"])],
+        units=[U("c19_estimate", "c19_estimate.cpp", quick=2500, thorough=45000, names=["estimate_bounds_peak"])],
         rule="Non-trivial: a convolution is requested, or >=10 auxiliary keys, or ndim>=3; distinct = hash(spec, aux count, kernel knots, dimension).",
         essential={"estimate_bounds_peak": {"convolution:yes": 0.4, "aux>=10": 0.2, "coeffs:>=1e4": 0.006}},
         assumptions=["sizeof(splinetable) is part of the estimate but not of the measured requests"],
@@ -266,7 +266,7 @@ PROPS = {
         level_text="Stateful differential testing of the C interface: generated sequences of up to 30 calls over 1..3 handles (init, free incl. double free, read of good / missing / damaged files into empty and occupied handles, read_mem, write to writable / unwritable paths and to memory incl. an occupied destination, get/read/write key with present, absent, reserved and malformed keys, every getter, tablesearchcenters and the three evaluators, convolve, glamfit with valid and invalid arguments, grideval + ndsparse_destroy, valid and invalid permutations) are mirrored call by call on C++ twin objects. The C return must signal failure exactly when the C++ operation throws or returns failure; after every call every getter and auxiliary key of every handle must equal its twin (bit for bit for evaluations); the case runs in a forked child (an escaping exception terminates it = failing case) and LeakSanitizer runs after every case.",
         level_note="Only handles in a state the header allows are used (initialised, or freed to NULL and then only init/free/read); gradients are only requested for tables the layout supports because the void wrapper cannot report failure.",
         technique="stateful differential property testing (rapidcheck, fork-isolated, ASan/LSan) against a C++ twin",
-        units=[U("c18_cinter", "c18_cinter.cpp", quick=2000, thorough=160000, names=["cinter_twin"])],
+        units=[U("c18_cinter", "c18_cinter.cpp", quick=2000, thorough=120000, names=["cinter_twin"])],
         rule="Non-trivial history: contains a failing call followed by a successful use of the same handle, or a grid evaluation; distinct = hash of the call list.",
         essential={"cinter_twin": {"history:failure_then_use_or_grideval": 0.3, "op:read_missing": 0.2, "op:glamfit_invalid": 0.2, "op:permute_invalid": 0.05, "op:grideval": 0.05, "op:read_key_int": 0.05, "op:free": 0.3}},
         assumptions=["the C++ twin is driven through the public C++ API only"],
